@@ -157,10 +157,17 @@ func (nullSafeComparisonPatcher) Visit(node *ast.Node) {
 			Arguments: []ast.Node{n.Left, n.Right},
 		})
 	case *ast.UnaryNode:
-		if n.Operator == "!" || n.Operator == "not" {
+		switch n.Operator {
+		case "!", "not":
 			ast.Patch(node, &ast.CallNode{
 				Callee:    &ast.IdentifierNode{Value: "__sql_not"},
 				Arguments: []ast.Node{n.Node},
+			})
+		case "-":
+			// -x is 0 - x: NULL for a NULL operand
+			ast.Patch(node, &ast.CallNode{
+				Callee:    &ast.IdentifierNode{Value: nullSafeArithmeticFuncs["-"]},
+				Arguments: []ast.Node{&ast.IntegerNode{Value: 0}, n.Node},
 			})
 		}
 	case *ast.MemberNode:
